@@ -347,5 +347,184 @@ def augexpand(src):
     return ast.unparse(tree) + "\n"
 
 
-ALL = {"unparse": unparse, "rename": rename, "noop": noop, "flipif": flipif,
+def loop2comp(src):
+    """`L = []` directly followed by `for T in IT: L.append(E)` (nothing else
+    in the loop, E and IT do not mention L) -> `L = [E for T in IT]`."""
+    def names(n):
+        return {x.id for x in ast.walk(n) if isinstance(x, ast.Name)}
+
+    def fn(stmts):
+        out = []
+        i = 0
+        while i < len(stmts):
+            st = stmts[i]
+            nx = stmts[i + 1] if i + 1 < len(stmts) else None
+            if isinstance(st, ast.Assign) and len(st.targets) == 1 and \
+                    isinstance(st.targets[0], ast.Name) and \
+                    isinstance(st.value, ast.List) and not st.value.elts and \
+                    isinstance(nx, ast.For) and not nx.orelse and len(nx.body) == 1 and \
+                    isinstance(nx.body[0], ast.Expr) and \
+                    isinstance(nx.body[0].value, ast.Call) and \
+                    isinstance(nx.body[0].value.func, ast.Attribute) and \
+                    nx.body[0].value.func.attr == "append" and \
+                    isinstance(nx.body[0].value.func.value, ast.Name) and \
+                    nx.body[0].value.func.value.id == st.targets[0].id and \
+                    len(nx.body[0].value.args) == 1 and not nx.body[0].value.keywords:
+                L = st.targets[0].id
+                E = nx.body[0].value.args[0]
+                if L not in names(E) | names(nx.iter) | names(nx.target) and \
+                        not any(isinstance(x, (ast.Yield, ast.YieldFrom, ast.Await,
+                                               ast.NamedExpr)) for x in ast.walk(E)):
+                    comp = ast.ListComp(elt=E, generators=[ast.comprehension(
+                        target=nx.target, iter=nx.iter, ifs=[], is_async=0)])
+                    out.append(ast.Assign(targets=[ast.Name(id=L, ctx=ast.Store())],
+                                          value=comp))
+                    i += 2
+                    continue
+            out.append(st)
+            i += 1
+        return out
+    tree = _map_blocks(ast.parse(src), fn)
+    ast.fix_missing_locations(tree)
+    return ast.unparse(tree) + "\n"
+
+
+def andsplit(src):
+    """`if a and b: S` (no else, not an elif) -> `if a:` `if b: S`."""
+    def fn(stmts):
+        out = []
+        for st in stmts:
+            if isinstance(st, ast.If) and not st.orelse and isinstance(st.test, ast.BoolOp) \
+                    and isinstance(st.test.op, ast.And) and len(st.test.values) == 2:
+                inner = ast.If(test=st.test.values[1], body=st.body, orelse=[])
+                st = ast.If(test=st.test.values[0], body=[inner], orelse=[])
+            out.append(st)
+        return out
+    tree = _map_blocks(ast.parse(src), fn)
+    ast.fix_missing_locations(tree)
+    return ast.unparse(tree) + "\n"
+
+
+def retifexp(src):
+    """`if c: return A` directly followed by `return B` -> `return A if c else B`."""
+    def fn(stmts):
+        out = []
+        i = 0
+        while i < len(stmts):
+            st = stmts[i]
+            nx = stmts[i + 1] if i + 1 < len(stmts) else None
+            if isinstance(st, ast.If) and not st.orelse and len(st.body) == 1 and \
+                    isinstance(st.body[0], ast.Return) and st.body[0].value is not None and \
+                    isinstance(nx, ast.Return) and nx.value is not None and \
+                    not any(isinstance(x, ast.Starred) for x in
+                            ast.walk(st.body[0].value)) and \
+                    not any(isinstance(x, ast.Starred) for x in ast.walk(nx.value)):
+                out.append(ast.Return(value=ast.IfExp(test=st.test, body=st.body[0].value,
+                                                      orelse=nx.value)))
+                i += 2
+                continue
+            out.append(st)
+            i += 1
+        return out
+    tree = _map_blocks(ast.parse(src), fn)
+    ast.fix_missing_locations(tree)
+    return ast.unparse(tree) + "\n"
+
+
+def comp2loop(src):
+    """`L = [E for T in IT]` (a whole statement, one generator, no filter,
+    L not used inside)  ->  `L = []` ; `for T in IT: L.append(E)`."""
+    def names(n):
+        return {x.id for x in ast.walk(n) if isinstance(x, ast.Name)}
+
+    def fn(stmts):
+        out = []
+        for st in stmts:
+            v = getattr(st, "value", None)
+            if isinstance(st, ast.Assign) and len(st.targets) == 1 and \
+                    isinstance(st.targets[0], ast.Name) and isinstance(v, ast.ListComp) \
+                    and len(v.generators) == 1 and not v.generators[0].ifs and \
+                    not v.generators[0].is_async and st.targets[0].id not in names(v):
+                L = st.targets[0].id
+                g = v.generators[0]
+                # the comprehension variable is local to the comprehension:
+                # keep it out of the way of the function's names
+                tnames = sorted(names(g.target))
+                ren = {t: "%s_c2l" % t for t in tnames}
+
+                class R(ast.NodeTransformer):
+                    def visit_Name(self, n):
+                        if n.id in ren:
+                            return ast.copy_location(ast.Name(id=ren[n.id], ctx=n.ctx), n)
+                        return n
+                tgt = R().visit(g.target)
+                elt = R().visit(v.elt)
+                out.append(ast.Assign(targets=[ast.Name(id=L, ctx=ast.Store())],
+                                      value=ast.List(elts=[], ctx=ast.Load())))
+                call = ast.Call(func=ast.Attribute(value=ast.Name(id=L, ctx=ast.Load()),
+                                                   attr="append", ctx=ast.Load()),
+                                args=[elt], keywords=[])
+                out.append(ast.For(target=tgt, iter=g.iter, body=[ast.Expr(value=call)],
+                                   orelse=[]))
+                continue
+            out.append(st)
+        return out
+    tree = _map_blocks(ast.parse(src), fn)
+    ast.fix_missing_locations(tree)
+    return ast.unparse(tree) + "\n"
+
+
+def stmt2ifexp(src):
+    """`if c: x = A else: x = B` (same plain target, single statements) ->
+    `x = A if c else B`."""
+    def fn(stmts):
+        out = []
+        for st in stmts:
+            if isinstance(st, ast.If) and len(st.body) == 1 and len(st.orelse) == 1 and \
+                    isinstance(st.body[0], ast.Assign) and isinstance(st.orelse[0], ast.Assign) \
+                    and len(st.body[0].targets) == 1 and len(st.orelse[0].targets) == 1 and \
+                    isinstance(st.body[0].targets[0], ast.Name) and \
+                    isinstance(st.orelse[0].targets[0], ast.Name) and \
+                    st.body[0].targets[0].id == st.orelse[0].targets[0].id and \
+                    not isinstance(st.body[0].value, ast.Starred):
+                out.append(ast.Assign(
+                    targets=[ast.Name(id=st.body[0].targets[0].id, ctx=ast.Store())],
+                    value=ast.IfExp(test=st.test, body=st.body[0].value,
+                                    orelse=st.orelse[0].value)))
+                continue
+            out.append(st)
+        return out
+    tree = _map_blocks(ast.parse(src), fn)
+    ast.fix_missing_locations(tree)
+    return ast.unparse(tree) + "\n"
+
+
+def demorgan(src):
+    """`if A and B:` -> `if not (not A or not B):` and `if A or B:` ->
+    `if not (not A and not B):` (tests of if / while statements)."""
+    class F(ast.NodeTransformer):
+        def fix(self, t):
+            if isinstance(t, ast.BoolOp):
+                other = ast.Or() if isinstance(t.op, ast.And) else ast.And()
+                return ast.UnaryOp(op=ast.Not(), operand=ast.BoolOp(
+                    op=other, values=[ast.UnaryOp(op=ast.Not(), operand=v) for v in t.values]))
+            return t
+
+        def visit_If(self, node):
+            self.generic_visit(node)
+            node.test = self.fix(node.test)
+            return node
+
+        def visit_While(self, node):
+            self.generic_visit(node)
+            node.test = self.fix(node.test)
+            return node
+    tree = F().visit(ast.parse(src))
+    ast.fix_missing_locations(tree)
+    return ast.unparse(tree) + "\n"
+
+
+ALL = {"comp2loop": comp2loop, "stmt2ifexp": stmt2ifexp, "demorgan": demorgan,
+       "loop2comp": loop2comp, "andsplit": andsplit, "retifexp": retifexp,
+       "unparse": unparse, "rename": rename, "noop": noop, "flipif": flipif,
        "flipcmp": flipcmp, "temps": temps, "unelse": unelse, "addelse": addelse, "condtemp": condtemp, "argtemp": argtemp, "augexpand": augexpand}
